@@ -13,9 +13,20 @@ package main
 
 import (
 	"bytes"
+	"context"
 	"encoding/binary"
 	"fmt"
+	"io"
+	"os"
+	"os/exec"
 	"strings"
+	"syscall"
+	"testing/iotest"
+	"time"
+
+	"github.com/biogo/hts/bam"
+	"github.com/biogo/hts/csi"
+	"github.com/biogo/hts/tabix"
 )
 
 func init() { checks["C15"] = checkC15 }
@@ -408,6 +419,29 @@ func (cs *c04Case) c15Run(c *ctx, d *Driver, impl *[]string) {
 	if rt != pre {
 		r.fail(cs.Kind+".rt.answers-differ", "Chunks answers differ after write∘read", in)
 	}
+	// the exposed header values survive the round trip
+	if msg := c15HeaderDiff(run.im, im2); msg != "" {
+		r.fail(cs.Kind+".rt.header-field", "a header field changes through write∘read: "+msg, in)
+	}
+	// readers that deliver fewer bytes than asked (io.Reader allows it) must give the same index. A reader
+	// that loses its place can ask for gigabytes, so this runs in a child process with its own memory limit;
+	// to keep the number of process starts small it is done for every CSI case with auxiliary data and for
+	// every 6th case otherwise.
+	c15Seq++
+	if (cs.Kind == "csi" && cs.Aux != "" && cs.Aux != "-") || c15Seq%6 == 0 {
+		for _, mode := range []string{"onebyte", "half"} {
+			out, crashed := c15RereadChild(cs.Kind, mode, w1)
+			switch {
+			case crashed:
+				r.fail(cs.Kind+".reread.shortreads.crash", "reading through a "+mode+" reader crashes, hangs or exhausts memory: "+out, in)
+			case strings.HasPrefix(out, "err"):
+				r.fail(cs.Kind+".reread.shortreads.error", "the written index is rejected when read through a "+mode+" reader: "+out, in)
+			case out != fmt.Sprintf("ok %d", fnv64(w2)):
+				r.fail(cs.Kind+".reread.shortreads.differs", "the index read through a "+mode+" reader re-serialises differently", in)
+			}
+			r.hist("rt.shortreads." + cs.Kind)
+		}
+	}
 	// previously read indexes: foreign encodings of the same index
 	if len(w1) > 6000 {
 		return
@@ -581,4 +615,112 @@ func checkC15(c *ctx) {
 		}
 	}
 	d.compare(r, "C15", impl)
+}
+
+var c15Seq int
+
+func init() { checks["C15-reread"] = c15RereadWorker }
+
+// c15RereadWorker is the child-process side of c15RereadChild: index bytes on stdin, kind and reader
+// mode in the environment; prints "ok <fnv64 of the re-serialised index>" or "err <message>".
+func c15RereadWorker(c *ctx) {
+	var lim syscall.Rlimit
+	lim.Cur, lim.Max = 2<<30, 2<<30
+	syscall.Setrlimit(syscall.RLIMIT_AS, &lim)
+	bs, _ := io.ReadAll(os.Stdin)
+	var rd io.Reader = bytes.NewReader(bs)
+	if os.Getenv("C15_MODE") == "onebyte" {
+		rd = iotest.OneByteReader(rd)
+	} else {
+		rd = iotest.HalfReader(rd)
+	}
+	w, err := c15RereadVia(os.Getenv("C15_KIND"), rd)
+	if err != nil {
+		fmt.Println("err " + err.Error())
+	} else {
+		fmt.Printf("ok %d\n", fnv64(w))
+	}
+	os.Exit(0)
+}
+
+// c15RereadChild runs c15RereadWorker in a child process under a watchdog.
+func c15RereadChild(kind, mode string, bs []byte) (out string, crashed bool) {
+	ctx, cancel := context.WithTimeout(context.Background(), 20*time.Second)
+	defer cancel()
+	cmd := exec.CommandContext(ctx, os.Args[0], "C15-reread")
+	cmd.Env = append(os.Environ(), "C15_KIND="+kind, "C15_MODE="+mode)
+	cmd.Stdin = bytes.NewReader(bs)
+	b, err := cmd.Output()
+	line := strings.TrimSpace(string(b))
+	if err != nil || line == "" {
+		msg := "no answer"
+		if err != nil {
+			msg = err.Error()
+		}
+		return msg, true
+	}
+	return line, false
+}
+
+// c15RereadVia reads an index of the given kind from an arbitrary reader and re-serialises it.
+func c15RereadVia(kind string, rd io.Reader) ([]byte, error) {
+	var buf bytes.Buffer
+	switch kind {
+	case "bai":
+		idx, err := bam.ReadIndex(rd)
+		if err != nil {
+			return nil, err
+		}
+		err = bam.WriteIndex(&buf, idx)
+		return buf.Bytes(), err
+	case "csi":
+		idx, err := csi.ReadFrom(rd)
+		if err != nil {
+			return nil, err
+		}
+		err = csi.WriteTo(&buf, idx)
+		return buf.Bytes(), err
+	}
+	idx, err := tabix.ReadFrom(rd)
+	if err != nil {
+		return nil, err
+	}
+	err = tabix.WriteTo(&buf, idx)
+	return buf.Bytes(), err
+}
+
+// c15HeaderDiff compares the exposed header values of an index and its re-read form.
+func c15HeaderDiff(a, b c04Impl) string {
+	switch x := a.(type) {
+	case *tbxImpl:
+		y, ok := b.(*tbxImpl)
+		if !ok {
+			return "kind"
+		}
+		p, q := x.idx, y.idx
+		switch {
+		case p.Format != q.Format:
+			return fmt.Sprintf("Format %d -> %d", p.Format, q.Format)
+		case p.ZeroBased != q.ZeroBased:
+			return fmt.Sprintf("ZeroBased %v -> %v (Format %d)", p.ZeroBased, q.ZeroBased, p.Format)
+		case p.NameColumn != q.NameColumn || p.BeginColumn != q.BeginColumn || p.EndColumn != q.EndColumn:
+			return "columns"
+		case p.MetaChar != q.MetaChar:
+			return "MetaChar"
+		case p.Skip != q.Skip:
+			return "Skip"
+		}
+	case *csiImpl:
+		y, ok := b.(*csiImpl)
+		if !ok {
+			return "kind"
+		}
+		if x.idx.Version != y.idx.Version {
+			return fmt.Sprintf("Version %d -> %d", x.idx.Version, y.idx.Version)
+		}
+		if !bytes.Equal(x.idx.Auxilliary, y.idx.Auxilliary) {
+			return "auxiliary data"
+		}
+	}
+	return ""
 }
